@@ -106,7 +106,8 @@ def main():
         dst = os.path.join(os.environ.get('VERIF_SEEDED_OUT') or os.path.join(VERIF, 'seeded'), name)
         os.makedirs(dst, exist_ok=True)
         for f in ('patch.diff', 'demo.py'):
-            shutil.copy(os.path.join(d, f), os.path.join(dst, f))
+            if os.path.abspath(os.path.join(d, f)) != os.path.abspath(os.path.join(dst, f)):
+                shutil.copy(os.path.join(d, f), os.path.join(dst, f))
         meta['verification'] = res
         json.dump(meta, open(os.path.join(dst, 'meta.json'), 'w'), indent=1)
     # after evaluating against a mutated tree the evidence files describe the mutated run:
